@@ -1,8 +1,8 @@
 (* C07 — parse() is total and deterministic (statements; proofs in SpecNoErr.v, SpecMono.v,
-   SpecLaws.v). Termination for well-formed grammars: see C07_full below (partial). *)
+   SpecLaws.v, SpecTerm.v). *)
 From Coq Require Import List NArith ZArith.
 Import ListNotations.
-From PP Require Import Base Syntax Spec SpecSyn SpecMono SpecLaws SpecNoErr.
+From PP Require Import Base Syntax Spec SpecSyn SpecMono SpecLaws SpecNoErr SpecTerm SpecCert Grammars.
 
 (* with every reference defined, the only results are a tree, a failure, or out-of-fuel:
    the model has no IndexError / UnboundLocalError / AssertionError / KeyError outcome at all,
@@ -14,16 +14,48 @@ Proof. exact parse_no_err. Qed.
 (* deterministic: one result, independent of how much fuel beyond "enough" is given *)
 Theorem C07_deterministic : forall g c t s r1 r2, runs g c t s r1 -> runs g c t s r2 -> r1 = r2.
 Proof. exact runs_det. Qed.
-Theorem C07_fuel_irrelevant : forall g f f' rule input k r,
-  parse g f rule input k = r -> r <> Fuel -> f <= f' -> parse g f' rule input k = r.
+Theorem C07_fuel_irrelevant : forall g (f f' : nat) rule input k r,
+  parse g f rule input k = r -> r <> Fuel -> (f <= f')%nat -> parse g f' rule input k = r.
 Proof. exact parse_mono. Qed.
 
-(* full statement, not proved: for grammars accepted by a pest-style validator (no left
-   recursion, no repetition over a possibly non-consuming body) some fuel suffices *)
-Definition C07_full : Prop :=
-  forall (wf_grammar : grammar -> bool) g, wf_grammar g = true ->
+(* termination: for every grammar accepted by a pest-style validator — no left recursion (also
+   not through the implicit WHITESPACE/COMMENT skip), no repetition over a body that may succeed
+   without consuming, certified by a nullability table and a ranking of the rules that the check
+   itself verifies — every parse from every rule on every input terminates *)
+Theorem C07_terminates : forall nul rank g, wf_grammar nul rank g = true ->
   forall rule input k, exists f, parse g f rule input k <> Fuel.
+Proof. exact parse_terminates. Qed.
+
+(* ... with the certificate computed from the grammar *)
+Theorem C07_terminates_auto : forall g, wf_auto g = true ->
+  forall rule input k, exists f, parse g f rule input k <> Fuel.
+Proof. exact wf_auto_terminates. Qed.
+
+(* hence, for such grammars, a tree or a failure — and nothing else — on every input *)
+Theorem C07_total : forall g, wf_auto g = true -> all_grammar (ref_defined g) g = true ->
+  forall rule input k, (exists r, lookup g rule = Some r) ->
+  exists f, (exists s t, parse g f rule input k = Ok s t) \/ (exists t, parse g f rule input k = Fail t).
+Proof.
+  intros g W D rule input k R.
+  destruct (wf_auto_terminates g W rule input k) as [f Hf]. exists f.
+  pose proof (parse_no_err g D f rule input k R) as E.
+  destruct (parse g f rule input k) as [s t|t| |]; [left; eexists; eexists; reflexivity|right; eexists; reflexivity| |];
+    congruence.
+Qed.
+
+(* non-vacuity: the bundled JSON grammars and pest's meta-grammar pass the validator; a
+   left-recursive grammar and a repetition over an optional do not *)
+Example wf_bundled : wf_auto json_grammar = true /\ wf_auto json_test_grammar = true /\ wf_auto meta_grammar = true.
+Proof. vm_compute. repeat split. Qed.
+Example wf_rejects : wf_auto [{| r_name := 5; r_silent := false; r_kind := KNormal;
+                                 r_body := ESeq [ERef 5 None; EStr [120%N]] |}] = false
+                  /\ wf_auto [{| r_name := 5; r_silent := false; r_kind := KNormal;
+                                 r_body := EStar (EOpt (EStr [120%N])) |}] = false.
+Proof. vm_compute. split; reflexivity. Qed.
 
 Print Assumptions C07_no_crash.
 Print Assumptions C07_deterministic.
 Print Assumptions C07_fuel_irrelevant.
+Print Assumptions C07_terminates.
+Print Assumptions C07_terminates_auto.
+Print Assumptions C07_total.
